@@ -1723,14 +1723,21 @@ impl Compiler {
     ) -> Result<(), JsError> {
         // Handle super() call
         if matches!(call.callee.as_ref(), Expression::Super(_)) {
-            // Compile arguments (spread not supported for super calls yet)
-            let (args_start, argc, _has_spread) = self.compile_arguments(&call.arguments)?;
+            // With a spread among the arguments they arrive packed in one array
+            let (args_start, argc, has_spread) = self.compile_arguments(&call.arguments)?;
 
-            self.builder.emit(Op::SuperCall {
-                dst,
-                args_start,
-                argc,
-            });
+            if has_spread {
+                self.builder.emit(Op::SuperCallSpread {
+                    dst,
+                    args_array: args_start,
+                });
+            } else {
+                self.builder.emit(Op::SuperCall {
+                    dst,
+                    args_start,
+                    argc,
+                });
+            }
             return Ok(());
         }
 
